@@ -304,6 +304,56 @@ def isolate_factor_lowered(ctx, zr, stats):
             ", ".join(names), json.dumps(seg[-1], sort_keys=True)), files=[segf], script={"coordsim": script})
 
 
+DIRECTED = [
+    # (name, script, R, N, P, extra flags): deterministic scenarios of the paths whose random coverage is thin;
+    # replayed in every tier so that detection there does not depend on the random rounds
+    ("rmnode-replacement-placement", 'MarkNodeRemoving(4);NodeDown(2);Migrate(1,0,"cur");RaftLeave(0,2);Finish(1,0,"cur");'
+     'Migrate(1,0,"cur");CheckRound(1)', 3, 4, 1, []),
+    ("rmnode-replacement-placement-spare", 'MarkNodeRemoving(4);NodeDown(2);Migrate(1,0,"cur");RaftLeave(0,2);Finish(1,0,"cur");'
+     'Migrate(1,0,"cur");RaftJoin(0,5);CheckRound(1)', 3, 5, 1, []),
+    ("rmnode-removable-report", 'PlanAdd(1,0,3,"cur");RaftJoin(0,3);MarkNodeRemoving(2);MoveOff(1);MoveOff(1);RaftLeave(0,2);'
+     'CheckRound(1);MoveOff(1);MoveOff(1);NodeDown(2);MoveOff(1)', 2, 4, 1, []),
+    ("balance-move-2parts", 'BalanceRound(1);CheckRound(1)', 3, 4, 2, ["-balance"]),     # real rebalanceNamespace: one 5 s sleep
+    ("check-round-2parts", 'CheckRound(1);CheckRound(1)', 3, 4, 2, []),
+]
+
+
+def directed(ctx, zr, stats):
+    def one(x):
+        name, script, R, N, P_, extra = x
+        d, summ = P.drive(ctx, zr, "coordsim", "directed-" + name,
+                          ["-script", script, "-R", str(R), "-N", str(N), "-P", str(P_)] + extra, timeout=300)
+        if summ is None:
+            return x, None
+        f = os.path.join(d, "t.0.ndjson")
+        return x, (d, f, summ) + run_trace(ctx, "directed-" + name, f, R)
+    res = {}
+    for (name, script, R, N, P_, extra), r in V.parallel(one, DIRECTED, n=4):
+        if r is None:
+            ctx.skipped += 1
+            continue
+        d, f, summ, consumed, mism, tl = r
+        if not consumed and not mism:
+            if tl.timed_out:
+                ctx.skipped += 1
+                continue
+            raise V.Inconclusive("directed script %s: trace validation did not complete: %s" % (name, tl.error or tl.out[-300:]))
+        events = V.read_ndjson(f)
+        res[name] = {"writes": summ["stats"].get("writes_ok", 0), "events": len(events), "rejected": len(mism)}
+        stats["segments"] += 1
+        stats["events"] += len(events)
+        for line, exp in mism:
+            s, seg = V.segment_of(events, line)
+            names = P.clause_names(exp)
+            segf = os.path.join(d, "fail-%d.ndjson" % line)
+            V.write_ndjson(segf, seg)
+            stats["mismatches"] += 1
+            V.report_failure(ctx, classify(seg, names), "directed script %s (R=%d N=%d P=%d): real coordinator step rejected by ZCoord (%s): %s" % (
+                name, R, N, P_, ", ".join(names), json.dumps(seg[-1], sort_keys=True)), files=[segf],
+                script={"coordsim": script, "flags": ["-R", R, "-N", N, "-P", P_] + extra})
+    stats["directed_scripts"] = res
+
+
 def run(ctx):
     zr = P.harness(ctx, ["coordsim.go"])
     quick = ctx.quick()
@@ -436,6 +486,7 @@ def run(ctx):
     if not quick:
         isolate_stale_factor(ctx, zr, stats)
         isolate_factor_lowered(ctx, zr, stats)
+    directed(ctx, zr, stats)
     if stats["segments"] == 0:
         raise V.Inconclusive("no behaviour could be replayed and validated")
     if not quick or ctx.seed % 4 == 1:
@@ -447,7 +498,7 @@ def run(ctx):
         model_runs=model_runs, spec_mutants_refuted_by=mutants, model_action_coverage=action_cov,
         events_validated=stats["events"], labels_replayed=stats["labels"],
         real_writes_by_kind=stats["writes"], real_writes_by_R=stats["by_R"], real_writes_by_stage=stats["writes_by_stage"],
-        isolate_stale_factor=stats.get("isolate_stale_factor"), isolate_factor_lowered=stats.get("isolate_factor_lowered"),
+        directed_scripts=stats.get("directed_scripts"), isolate_stale_factor=stats.get("isolate_stale_factor"), isolate_factor_lowered=stats.get("isolate_factor_lowered"),
         distinct_nontrivial=len(stats["distinct_writes"]),
         rule="distinct_nontrivial = different (R, previous record, written record) transitions the real coordinator "
              "performed and TLC accepted as guarded Mark/Add/Finish steps",
